@@ -7,7 +7,7 @@ import zlib
 from harness import core
 from harness.core import Z, zpairs
 from harness.main import Finding, Suite
-from harness.readers import call, judge_read
+from harness.readers import call, judge_read, keep_alive
 
 PROPERTY = "C01"
 PROPS_FILE = "Props/C01.v"
@@ -600,7 +600,7 @@ class Qcow2Suite(Suite):
                 signal.setitimer(signal.ITIMER_VIRTUAL, 0)
 
         def do_open():
-            return Q.QCow2(fh, data_file=data, backing_file=barg)
+            return keep_alive(Q.QCow2(fh, data_file=data, backing_file=barg))
 
         q = guarded(do_open)
         if isinstance(q, dict):
